@@ -429,6 +429,13 @@ REJECT = {
     "T-negative": BASE + ["-T", "-3"],
     "q-above-1": ["A", "-m", "quantilescore", "-q", "1.5"],
     "q-below-0": ["A", "-m", "quantilescore", "-q", "-0.1"],
+    # ... regardless of the other options: also when the metric does not use quantiles, before or after -m, in a list, with --list-*
+    "q-above-1-with-a-metric-that-ignores-quantiles": BASE + ["-q", "1.5"],
+    "q-above-1-before-the-metric": ["A", "B", "-q", "1.5", "-m", "mae"],
+    "q-below-0-among-valid-levels": BASE + ["-q", "0.5,-0.2"],
+    "q-range-reaching-above-1": ["A", "-q", "0:0.5:2", "-m", "rmse", "-x", "location"],
+    "q-above-1-with-a-listing-option": ["A", "-q", "1.5", "--list-times"],
+    "T-zero-with-Tx-time": BASE + ["-T", "0", "-Tx", "time"],
     "unknown-type": BASE + ["-type", "foo"],
     "unknown-axis": BASE + ["-x", "foo"],
     "unknown-Tx-axis": BASE + ["-Tx", "foo"],
